@@ -19,9 +19,9 @@ package utils
 //@   requires r != nil
 //@   modifies r.pos, r.avail, r.failed, mem
 //@   allocates
-//@   top-ensures err == nil ==> n >= 0 || r.failed
+//@   top-ensures err == nil ==> n >= 0
 //@   loop 0:
-//@     invariant n >= 0 || r.failed
+//@     invariant n >= 0
 
 //@ func SkipCRLF(reader) err
 //@   props C03, C14
